@@ -116,7 +116,8 @@ fn send(
             _ => (format!("content-type: {mime}\r\n"), b"raw \x00\xff bytes".to_vec()),
         },
     };
-    let req = request("PUT", &path, &ct, &bytes);
+    // variation "chunked": the same request without an announced length
+    let req = if why.starts_with("chunked") && body.is_some() { chunked_request("PUT", &path, &ct, &[&bytes]) } else { request("PUT", &path, &ct, &bytes) };
     let r = ka.roundtrip(&req, false, T);
     let case = json!({"kind":"program","zoo":"c07","item": ep["name"], "endpoint": ep, "request": {"path": path, "content_type": ct.trim(), "body": String::from_utf8_lossy(&bytes)}, "variation": why});
     let ReadOutcome::Resp(resp) = &r else {
@@ -343,6 +344,10 @@ fn main() {
                 }
             }
             send(&ctx, &mut ka, &doc, ep, op, path_tmpl, &canon_path, &q, canon_body, true, &format!("optional-subset:{mask:b}"), &cn, &samples);
+        }
+        // (a) the canonical request with the body's length not announced (chunked transfer coding)
+        if canon_body.is_some() {
+            send(&ctx, &mut ka, &doc, ep, op, path_tmpl, &canon_path, &canon_query_required, canon_body, true, "chunked: canonical request, transfer-encoding chunked", &cn, &samples);
         }
         // (a) every parameter instance
         for (pi, p) in params.iter().enumerate() {
